@@ -133,7 +133,7 @@ def build(m):
                     assert len(me["streams"][s]) == me["vcount"] * me["strides"][s]
                     vbuf += me["streams"][s]
                 me["_offs"] = offs
-            if m.get("stream_shuffle_seed") is not None and me is not l[0]:
+            if m.get("stream_shuffle_seed") is not None and me is not l[0] and not m.get("packed_indices"):
                 # unused indices between the index runs of the meshes (each mesh carries its own start index; the first mesh
                 # of a LOD keeps start index 0, the only position shapes are generated for - see ASSUMPTIONS of C06)
                 junk = random.Random(m["stream_shuffle_seed"] * 11 + li * 5 + len(ibuf)).choice([0, 0, 1, 5])
